@@ -553,6 +553,9 @@ func (n *NSQD) GetExistingTopic(topicName string) (*Topic, error) {
 	return topic, nil
 }
 
+// errExiting is returned by Topic.exit when the exit flag was already set
+var errExiting = errors.New("exiting")
+
 // DeleteExistingTopic removes a topic only if it exists
 func (n *NSQD) DeleteExistingTopic(topicName string) error {
 	n.RLock()
@@ -569,11 +572,20 @@ func (n *NSQD) DeleteExistingTopic(topicName string) error {
 	// we do this before removing the topic from map below (with no lock)
 	// so that any incoming writes will error and not create a new topic
 	// to enforce ordering
-	topic.Delete()
+	err := topic.Delete()
+	if err == errExiting {
+		// another deletion of this very topic is in progress: it unlinks the
+		// topic when it is done. Unlinking the name now would let a new topic
+		// of that name (same disk queue files) be created underneath it.
+		return nil
+	}
 
 	verifPoint("topic.delete.beforeUnlink")
 	n.Lock()
-	delete(n.topicMap, topicName)
+	// unlink this topic, not whatever is registered under the name by now
+	if n.topicMap[topicName] == topic {
+		delete(n.topicMap, topicName)
+	}
 	// the persist triggered by the Notify at the start of topic.Delete() usually ran
 	// while the topic was still in the map, so persist again now that it is unlinked
 	// (otherwise nsqd.dat keeps listing the deleted topic and a hard kill resurrects it)
